@@ -3,6 +3,7 @@ package c10
 import (
 	"bytes"
 	"crypto/sha256"
+	"math"
 	"math/big"
 
 	g "github.com/zenon-network/go-zenon/chain/genesis/mock"
@@ -234,8 +235,13 @@ func initHtlcOps() {
 			ht, lock = definition.HashTypeSHA256, s[:]
 		}
 		exp := n.Frontier().Timestamp.Unix() + 35 // expires 3-4 momentums from now
-		if o.S == "sha256" {
+		switch o.S {
+		case "sha256":
 			exp += 70 // the second kind of entry stays locked much longer
+		case "never":
+			exp = math.MaxInt64 // "never expires"
+		case "year2400":
+			exp += 400 * 365 * 86400 // a legitimate far-future expiration (more seconds than nanoseconds fit 63 bits)
 		}
 		return htlcCall(n, o.A, ops.Tokens[o.T], o.V, definition.ABIHtlc.PackMethodPanic(definition.CreateHtlcMethodName, ops.Users[o.B].Address, exp, ht, uint8(32), lock))
 	}
@@ -282,6 +288,9 @@ func htlcFamily() family {
 		{Name: "htlc/spork-active", Prefix: act},
 		{Name: "htlc/entries", Prefix: append(append([]ops.Op{}, act...),
 			ops.Op{K: "HtlcCreate", A: 0, B: 1, T: 0, V: 10}, M, M, M, ops.Op{K: "HtlcCreate", A: 2, B: 1, T: 1, V: 7, S: "sha256"}, M)},
+		// expirations far in the future: the depositor cannot reclaim, the beneficiary can unlock
+		{Name: "htlc/far-expiry", Prefix: append(append([]ops.Op{}, act...),
+			ops.Op{K: "HtlcCreate", A: 0, B: 1, T: 0, V: 10, S: "never"}, M, ops.Op{K: "HtlcCreate", A: 2, B: 1, T: 1, V: 7, S: "year2400"}, M)},
 		{Name: "htlc/proxy-denied", Prefix: append(append([]ops.Op{}, act...),
 			ops.Op{K: "HtlcCreate", A: 0, B: 1, T: 0, V: 10}, M, M, M, ops.Op{K: "HtlcCreate", A: 2, B: 1, T: 1, V: 7, S: "sha256"}, M, ops.Op{K: "HtlcDeny", A: 1}, M, M)},
 	}
